@@ -60,12 +60,19 @@ Fixpoint go (s : state) (l : list op) : list (state * N) :=
   end.
 (* (state BEFORE the op, return value of the op) *)
 
+(* What the harness observes per operation: (return value, still).  [still] is empty except
+   for a disconnect request: the connections the request named that were registered when it
+   was made and that, after the harness' deadline, are STILL registered and STILL served
+   (ping answered and a datagram of theirs forwarded).  In the model the named registered
+   connections are gone at once, so [still] is always empty. *)
+Definition obs := (N * list N)%type.
 Definition input := list op.
-Definition output := res (list N).
+Definition output := res (list obs).
 
-Definition model (i : input) : output := Ok (map snd (go [] i)).
+Definition model (i : input) : output := Ok (map (fun p => (snd p, @nil N)) (go [] i)).
 
-Definition agree (i : input) (o : output) : bool := res_eqb (list_eqb N.eqb) (model i) o.
+Definition obs_eqb (a b : obs) : bool := (fst a =? fst b) && list_eqb N.eqb (snd a) (snd b).
+Definition agree (i : input) (o : output) : bool := res_eqb (list_eqb obs_eqb) (model i) o.
 
 (* The property on observed probe results: a connection for which a matching disconnect
    request was issued after its admission is not served; a registered connection for which
@@ -76,11 +83,23 @@ Definition probe_ok (s : state) (k r : N) : bool :=
                          else if phase c =? 1 then r =? 1 else true
                     else true) s.
 
-Fixpoint monitor_from (s : state) (l : list op) (rs : list N) : bool :=
+(* The property on what is observed right after a disconnect request: no connection the
+   request names (by connection id: that one; by endpoint id: every connection of that
+   endpoint, active or displaced) that was registered when the request was made is still
+   served after the deadline. *)
+Definition disc_ok (s : state) (id : N) (o : option N) (still : list N) : bool :=
+  forallb (fun c => if matches c id o && (phase c =? 1)
+                    then negb (existsb (N.eqb (num c)) still) else true) s.
+
+Fixpoint monitor_from (s : state) (l : list op) (rs : list obs) : bool :=
   match l, rs with
   | [], [] => true
   | o :: l', r :: rs' =>
-      (match o with OProbe k => probe_ok s k r | _ => true end) &&
+      (match o with
+       | OProbe k => probe_ok s k (fst r)
+       | ODisc id oc => disc_ok s id oc (snd r)
+       | _ => true
+       end) &&
       monitor_from (fst (exec s o)) l' rs'
   | _, _ => false
   end.
